@@ -394,6 +394,8 @@ def phase_rule(facts, rep, R3, R5, ser):
             evs.append((idx.get(bb, 0), bb, nm, [nv.term_of_operand(a) for a in t["args"][1:]]))
     evs.sort()
     seq = []
+    words_per_item = {}
+    last_loop = None
     for _, bb, nm, args in evs:
         enc = enclosing_loops(loops, bb)
         if nm == "write_u32":
@@ -421,7 +423,13 @@ def phase_rule(facts, rep, R3, R5, ser):
                     for el in arr:
                         seq.append(("u32", affine(el, nv)))
                 else:
-                    seq.append(("loop_u32", root_of(src) if src else None))
+                    r__ = root_of(src) if src else None
+                    if seq and seq[-1][0] == "loop_u32" and seq[-1][1] == r__ and r__ is not None and last_loop == enc[0]["head"]:
+                        # a second word per iteration of the same loop: a table of records, not a second table
+                        words_per_item[r__] = words_per_item.get(r__, 1) + 1
+                    else:
+                        seq.append(("loop_u32", r__))
+                    last_loop = enc[0]["head"]
             else:
                 seq.append(("u32", affine(v, nv)))
         elif nm == "seek":
@@ -448,7 +456,13 @@ def phase_rule(facts, rep, R3, R5, ser):
 
     def is_vec_of(root, ty):
         return root and root[0] == "local" and nv.local_ty(root[1]) == ty
-    if not (is_vec_of(pool_sec, "std::vec::Vec<u8>") and is_vec_of(text_sec, "std::vec::Vec<u8>") and is_vec_of(ptr_sec, "std::vec::Vec<u32>") and is_vec_of(lab_sec, "std::vec::Vec<u32>")):
+    kl = words_per_item.get(lab_sec, 1)   # words written per element of the label table
+    lab_ty = "std::vec::Vec<u32>" if kl == 1 else ("std::vec::Vec<(u32, u32)>" if kl == 2 else None)
+    if words_per_item.get(ptr_sec, 1) != 1 or lab_ty is None or not is_vec_of(lab_sec, lab_ty):
+        rep.inconc(R3, "label/pointer tables are written %s/%s words per element of %s: not one of the recognised layouts" % (
+            words_per_item.get(ptr_sec, 1), kl, nv.local_ty(lab_sec[1]) if lab_sec and lab_sec[0] == "local" else lab_sec))
+        return
+    if not (is_vec_of(pool_sec, "std::vec::Vec<u8>") and is_vec_of(text_sec, "std::vec::Vec<u8>") and is_vec_of(ptr_sec, "std::vec::Vec<u32>")):
         bad = "section buffers have unexpected types"
     # header words
     h = [s[1] for s in seq[:4]]
@@ -478,10 +492,12 @@ def phase_rule(facts, rep, R3, R5, ser):
         ok4 = False
         if a4 and len(a4[0]) == 1 and a4[1] == 0:
             k = list(a4[0].keys())[0]
-            if k[0] == "div" and k[2] == 2 and len_atom(k[1]) == lab_sec:
+            if kl == 1 and k[0] == "div" and k[2] == 2 and len_atom(k[1]) == lab_sec:
                 ok4 = True
+            if kl == 2 and len_atom(k) == lab_sec and a4[0][k] == 1:
+                ok4 = True   # one record per element: the count is the length itself
         d1, c1 = h1
-        ok1 = (c1 == hdr and d1.get(pool_sec) == 1 and d1.get(ptr_sec) == 4 and d1.get(lab_sec) == 4 and d1.get(text_sec) == 1
+        ok1 = (c1 == hdr and d1.get(pool_sec) == 1 and d1.get(ptr_sec) == 4 and d1.get(lab_sec) == 4 * kl and d1.get(text_sec) == 1
                and any(same_data(k) and v == 1 for k, v in d1.items()) and len(d1) == 5)
         if not ok1:
             bad = "header word 1 (file size) is %s" % fmt_affine(h[0])
